@@ -964,7 +964,9 @@ class SimSelector(selectors._BaseSelectorImpl):  # type: ignore[name-defined,mis
                     break
                 if remaining is not None:
                     remaining -= w.now - before
-                    if remaining <= 0:
+                    # `w.now + remaining == w.now`: a residue too small to move the float clock (absorption) would spin
+                    # here forever without advancing virtual time
+                    if remaining <= 0 or w.now + remaining == w.now:
                         break
         else:
             w.positive_wait() if timeout is None or timeout > 0 else None
